@@ -147,7 +147,7 @@ func vConcByte(x byte) byte      { return x }
 func vStop()                     { panic(vPruned{"vStop"}) }
 func vOrigin(tag string)         {}
 func vFootBegin()                {}
-func vFootReport(label string)   {}
+func vFootReport(label, kf string) {}
 func vAllocLimit(limit int)      {}
 // vSameObject: do the two views lie in the same allocation? (native: address
 // range test on the first view's full capacity)
@@ -178,3 +178,6 @@ func vAliasBytes(a, b []byte) bool {
 // (observable only in the encoding; natively the real pgx codecs run).
 func vEncodeFormats() []int { return nil }
 func vAllocLimits(bytes, count int) {}
+
+// vRaceMode: native replay of a footprint counterexample under the race detector.
+func vRaceMode() bool { return os.Getenv("VERIF_RACE") != "" }
